@@ -40,6 +40,8 @@ def alphabet(pfx, rid, ext):
         P([0x30, 0, 0]), P([0x31, 0, 0]), P([0x32, 0, 0]), P([0x33, 0, 0]), P([0x30, 0, 0x80]),
         P([0x45, 1, 2]), P([]), P([0xF0]),
         (rid ^ 1, ext, pfx + bytes([0x03, 1, 2, 3])), (rid, 1 - ext, pfx + bytes([0x03, 1, 2, 3])),
+        # the right number with the wrong identifier width: a whole message of them, never for this layer
+        (rid, 1 - ext, pfx + bytes([0x10, 0x0A, 1, 2, 3, 4, 5, 6])), (rid, 1 - ext, pfx + bytes([0x21, 7, 8, 9, 10, 11, 12, 13])),
     ]
     return A
 
@@ -245,6 +247,9 @@ def cfgs(rng):
         for bs in (0, 1, 2):
             for mfs in (12, 4095):
                 out.append((mode, bs, mfs))
+    # the two modes whose identifier is computed (masked comparison) rather than given, once each
+    out.append(('NormalFixed_29bits', 1, 4095))
+    out.append(('Mixed_29bits', 2, 4095))
     return out
 
 
